@@ -1,21 +1,30 @@
 #!/bin/bash
 # Development aid: confirm a sub-agent's seeded change in its scratch worktree.
 #   dev/confirm_seed.sh /tmp/seed_Cxx
-# 1. with the change: library builds, ctest passes, demo exits non-zero
-# 2. without the change (git stash): demo exits 0
+# 1. with the change: library builds, ctest passes (pinned configuration RelWithDebInfo), demo exits non-zero
+# 2. without the change (reverse-applied; no git stash: the stash is shared between worktrees): demo exits 0
+# If seed/BUILD_TYPE exists (e.g. "Debug": pointer checks, fences), the demo is linked against a second build of that type;
+# the test suite is still run in the pinned configuration.
 # prints one summary line; leaves the worktree with the change applied
 W="$1"; B="$W/_b"
 set -o pipefail
 cd "$W" || exit 2
-[ -d "$B" ] || cmake -S "$W" -B "$B" -G Ninja -DCMAKE_BUILD_TYPE=RelWithDebInfo -DFETCHCONTENT_TRY_FIND_PACKAGE_MODE=ALWAYS >/dev/null 2>&1
-demo() { g++ -std=gnu++17 -g -w -I"$W/include" -I"$B/src" "$W/seed/demo.cpp" "$B"/src/libfoonathan_memory-*.a -o "$W/seed/demo.bin" -pthread 2>&1 | tail -3; timeout 60 "$W/seed/demo.bin" >/dev/null 2>&1; echo $?; }
-cmake --build "$B" >/dev/null 2>&1; built=$?
+CF="-G Ninja -DFETCHCONTENT_TRY_FIND_PACKAGE_MODE=ALWAYS"
+[ -d "$B" ] || cmake -S "$W" -B "$B" $CF -DCMAKE_BUILD_TYPE=RelWithDebInfo >/dev/null 2>&1
+D="$B"
+if [ -f "$W/seed/BUILD_TYPE" ]; then
+  D="$W/_bd"; BT=$(tr -d ' \n' < "$W/seed/BUILD_TYPE")
+  [ -d "$D" ] || cmake -S "$W" -B "$D" $CF -DCMAKE_BUILD_TYPE=$BT -DFOONATHAN_MEMORY_BUILD_TESTS=OFF -DFOONATHAN_MEMORY_BUILD_EXAMPLES=OFF -DFOONATHAN_MEMORY_BUILD_TOOLS=OFF >/dev/null 2>&1
+fi
+buildall() { cmake --build "$B" >/dev/null 2>&1; r=$?; [ "$D" != "$B" ] && { cmake --build "$D" >/dev/null 2>&1 || r=$?; }; return $r; }
+demo() { g++ -std=gnu++17 -g -w -I"$W/include" -I"$D/src" "$W/seed/demo.cpp" "$D"/src/libfoonathan_memory-*.a -o "$W/seed/demo.bin" -pthread 2>&1 | tail -3; timeout 120 "$W/seed/demo.bin" >/dev/null 2>&1; echo $?; }
+buildall; built=$?
 tests=$(ctest --test-dir "$B" --timeout 900 2>&1 | grep -c "100% tests passed")
 with=$(demo | tail -1)
-git stash -q -- include src
-cmake --build "$B" >/dev/null 2>&1
+git diff -- include src cmake > "$W/seed/.cur.diff"; git apply -R "$W/seed/.cur.diff"
+buildall
 without=$(demo | tail -1)
-git stash pop -q
-cmake --build "$B" >/dev/null 2>&1
-echo "$(basename $W): build_rc=$built tests_pass=$tests demo_with_change_exit=$with demo_without_change_exit=$without"
+git apply "$W/seed/.cur.diff"; rm -f "$W/seed/.cur.diff"
+buildall
+echo "$(basename $W): build_rc=$built tests_pass=$tests demo_with_change_exit=$with demo_without_change_exit=$without demo_build=$(basename $D)"
 rm -f "$W/seed/demo.bin"
